@@ -27,6 +27,9 @@ type childOut struct {
 	Witness    map[string]any `json:"witness,omitempty"`
 }
 
+// rewrite histories from this index on configure the key store with a non-canonical spelling of its path
+const oddPathFirst = 960000
+
 func c16Child() {
 	seed, _ := strconv.ParseInt(core.ChildArg("SEED"), 10, 64)
 	first, _ := strconv.Atoi(core.ChildArg("FIRST"))
@@ -85,6 +88,8 @@ func c16Child() {
 			res = runE2EHistory(seed, h, pool, ca, dir, now, stress)
 		} else if mode == "storm" {
 			res = runStormHistory(seed, h, pool, ca, dir, now)
+		} else if mode == "rewrite" {
+			res = runRewriteHistory(seed, h, pool, ca, dir, h >= oddPathFirst)
 		} else {
 			res = runSignerHistory(seed, h, pool, ca, dir, now, stress)
 		}
@@ -140,9 +145,15 @@ func TestC16(t *testing.T) {
 		"after the last reload of a signer history a new token must verify against the key set fetched after it and both must belong to the last generation. (e) storm histories: bursts of 2-3 atomic replacements " +
 		"(link + rename, alternating two generations, sometimes a store that must be rejected in the middle) arrive while the reload triggered by the previous replacement is still being processed (notifications delivered one " +
 		"after the other); every token/key-set pair taken while no reload was being processed (sequence counter around OnChanged) must verify, after quiescence token and key set belong to the last written generation. " +
+		"(f) in-place rewrites: an assembled instance whose key store keeps its inode and is replaced by writers that are not instantaneous (truncate + write, truncate, pause, write; 2-4 pieces cut at entry boundaries " +
+		"and at arbitrary offsets; overwrite, then cut the rest off; two complete saves within a few ms) through rotations that include 'same ids, new key material' and 'certificate renewed for the same key'; judged only " +
+		"after logical quiescence (watcher handed to the factory wrapped to count started/finished reload processings, a sentinel file on the same watcher written after the last write, contradictions re-examined after a real pause): " +
+		"a new token is signed with and names the active key of the file's final content, the key set is that content's public set, and the token verifies against the copy of verifier clients that revalidate " +
+		"(If-None-Match / If-Modified-Since with the validators they were given, copy kept on 304) - also when they revalidate although nothing changed. One history configures the key store path in a non-canonical spelling. " +
+		"A final content cut off inside its last PEM entry is a side observation (token must still verify against the key set). " +
 		"Lock shims perturb the scheduler between critical sections; race detector on. " +
 		"A history is non-trivial if at least one token operation overlapped a reload.")
-	r.Assume("key stores are replaced atomically (rename); truncating in-place rewrites and their crash are C19's subject",
+	r.Assume("(a)-(e): key stores are replaced atomically (rename); (f): in-place rewrites always end with a complete valid store, transient states during a rewrite are not judged; a writer that crashes half way is C19's subject",
 		"e2e: reloads are serialised by the reloader (next store written only after the previous one was observed in a key set or a received token)",
 		"race freedom, linearizability and monotonicity only on the interleavings produced",
 		"wall clock does not step backwards during a run (iat is compared with a bracket of time.Now() readings)")
@@ -190,6 +201,13 @@ func TestC16(t *testing.T) {
 	for f, i := 0, 0; f < nStorm; f, i = f+stBatch, i+1 {
 		jobs = append(jobs, job{"storm", 900000 + f, min(stBatch, nStorm-f), 0, []int{0, 2, 1, 4}[i%4]})
 	}
+	// in-place rewrites by writers that are not instantaneous + verifier clients that revalidate their copy
+	nRewrite, rwBatch := r.Pick(6, 60), r.Pick(2, 6)
+	for f := 0; f < nRewrite; f += rwBatch {
+		jobs = append(jobs, job{"rewrite", 950000 + f, min(rwBatch, nRewrite-f), 0, 0})
+	}
+	nOddPath := r.Pick(1, 3)
+	jobs = append(jobs, job{"rewrite", oddPathFirst, nOddPath, 0, 0})
 	for f, i := 0, 0; f < nSigner; f, i = f+sBatch, i+1 {
 		// scheduler regimes: default GOMAXPROCS, 2 and 1 processors
 		jobs = append(jobs, job{"signer", f, min(sBatch, nSigner-f), 0, []int{0, 2, 1, 2}[i%4]})
@@ -202,7 +220,7 @@ func TestC16(t *testing.T) {
 				return 0
 			case jb.mode == "signer" && jb.procs == 1:
 				return 1
-			case jb.mode == "e2e":
+			case jb.mode == "e2e" || jb.mode == "rewrite":
 				return 2
 			case jb.procs == 2:
 				return 3
@@ -341,6 +359,9 @@ func TestC16(t *testing.T) {
 				if hr.Storm != nil {
 					nontrivial = hr.Storm.ReplDuring > 0
 				}
+				if hr.Rewrite != nil {
+					nontrivial = hr.Rewrite.Judged > 0
+				}
 				r.Case(fmt.Sprintf("%s/%d/%d/%s", m, r.Seed, idx, strings.Join(hr.Kinds, ",")), nontrivial)
 				for _, k := range hr.Kinds {
 					kinds[k]++
@@ -377,6 +398,30 @@ func TestC16(t *testing.T) {
 					r.Count("storm_quiescent_checks", s.Quiescent)
 					r.Count("storm_bursts_with_a_store_that_must_be_rejected", s.BadInBurst)
 					r.Count("storm_bursts_alternating_a_relabelled_key", s.RelabelIn)
+				}
+				if w := hr.Rewrite; w != nil {
+					r.Count("rewrite_replacements_in_place", w.Rounds)
+					r.Count("rewrite_quiescent_states_judged", w.Judged)
+					r.Count("rewrite_replacements_with_a_reload_started_before_the_last_write", w.ReloadDuringWrite)
+					r.Count("rewrite_replacements_with_overlapping_reload_processings", w.OverlappingLoads)
+					r.Count("rewrite_reload_processings", w.ReloadsStarted)
+					r.Count("rewrite_states_rechecked_after_a_pause", w.Rechecks)
+					r.Count("rewrite_states_that_settled_during_the_recheck", w.Settled)
+					r.Count("rewrite_conditional_requests", w.Revalidations)
+					r.Count("rewrite_conditional_requests_answered_304", w.NotModified)
+					r.Count("rewrite_conditional_requests_answered_200", w.Refetched)
+					r.Count("rewrite_tokens_verified_against_a_revalidated_copy", w.HeldChecks)
+					r.Count("rewrite_rotations_changing_only_key_material_or_certificates", w.SameIDsRotations)
+					r.Count("rewrite_final_contents_cut_off_in_the_last_pem_entry", w.CutOff)
+					r.Count("rewrite_cut_off_contents_loaded_with_fewer_keys", w.CutOffAccepted)
+					r.Count("rewrite_background_requests_during_replacements", w.Unjudged)
+					r.Count("rewrite_histories_path_"+w.PathShape, 1)
+					for k, n := range w.Shapes {
+						r.Count("rewrite_writer_"+k, n)
+					}
+					for k, n := range w.Rotations {
+						r.Count("rewrite_rotation_"+k, n)
+					}
 				}
 				if hr.Verdict == "illegal" && m == "signer" {
 					r.Violation("not-linearizable", fmt.Sprintf("signer history %d is not linearizable w.r.t. a register 'current key-store generation'", idx), hr)
@@ -427,6 +472,9 @@ func TestC16(t *testing.T) {
 	for k := range kinds {
 		shapes[strings.SplitN(k, "/", 2)[0]] = true
 	}
+	if hp := r.Counter("rewrite_histories_harness_problem"); hp*3 > int64(nRewrite+nOddPath) {
+		r.Inconclusive(fmt.Sprintf("%d in-place rewrite histories could not be set up or did not reach quiescence, see last_harness_problem", hp))
+	}
 	if hp := r.Counter("signer_histories_harness_problem") + r.Counter("e2e_histories_harness_problem"); hp*20 > int64(nSigner+nE2E) {
 		r.Inconclusive(fmt.Sprintf("%d histories could not be set up (generator/app problem), see last_harness_problem", hp))
 	}
@@ -442,6 +490,10 @@ func TestC16(t *testing.T) {
 	r.Require("e2e_token_ops_overlapping_reload", r.Counter("e2e_token_ops_overlapping_reload"), int64(nE2E*3))
 	r.Require("e2e_histories_ok", r.Counter("e2e_histories_ok"), int64(nE2E/2))
 	r.Require("storm_replacements_during_reload_processing", r.Counter("storm_replacements_during_reload_processing"), int64(nStorm/4))
+	r.Require("rewrite_quiescent_states_judged", r.Counter("rewrite_quiescent_states_judged"), int64(nRewrite*3))
+	r.Require("rewrite_replacements_with_a_reload_started_before_the_last_write", r.Counter("rewrite_replacements_with_a_reload_started_before_the_last_write"), int64(nRewrite))
+	r.Require("rewrite_conditional_requests_answered_304", r.Counter("rewrite_conditional_requests_answered_304"), 1)
+	r.Require("rewrite_rotations_changing_only_key_material_or_certificates", r.Counter("rewrite_rotations_changing_only_key_material_or_certificates"), int64(nRewrite))
 	r.Require("signer_generations_relabelling_the_active_key", r.Counter("signer_generations_relabelling_the_active_key"), int64(nSigner/10))
 	r.End()
 }
